@@ -353,6 +353,20 @@ def generate(log=None):
             groups.setdefault('C09_G_Global', []).append((n,
                 f'Definition {n}_table : dtable :=\n  {ent}.\n'
                 f'Lemma {n}_table_ok : dtable_ok {n}_table = true.\nProof. vm_compute. reflexivity. Qed.\n'))
+            from . import c09_gdof
+            got, want = c09_gdof.run_gdof(e), c09_gdof.expected(e)
+            nn = e.refdom.nnodes
+            refp = [[rat(x) for x in col] for col in np.asarray(e.refdom.p).T]
+
+            def cents(lst):
+                return '[' + ';\n    '.join(f'("{k}"%string, {cqs([comb.get(v, Fr(0)) for v in range(nn)])})' for k, comb in lst) + ']'
+            try:
+                dl = '[' + '; '.join(cqs([rat(x) for x in row]) for row in np.asarray(e.doflocs)) + ']'
+            except NonRational as ex:
+                raise TranslateError(f'{n}: doflocs: {ex}')
+            groups['C09_G_Global'].append((n + '_gdof',
+                f'Definition {n}_g : gelem :=\n  mkGelem "{n}"%string {d}%nat [' + '; '.join(cqs(r) for r in refp) + f']\n    {cents(got)}\n    {cents(want)}\n    {dl}.\n'
+                f'Lemma {n}_gdof : gdof_ok {n}_g = true.\nProof. vm_compute. reflexivity. Qed.\n'))
             names_glob.append(n)
             info['global'].append({'name': n, 'dim': d, 'derivatives': int(e.derivatives), 'table_entries': len(tab),
                                    'power_basis': len(tab[0][1])})
@@ -397,6 +411,8 @@ def generate(log=None):
             forall_lemma('legendre_deriv_ok', 'deriv_ok e = true', 'legendre_elements', names_leg, 'deriv'),
             forall_lemma('legendre_dual_ok', 'duality_param_ok e = true', 'legendre_elements', names_leg, 'dualp'),
             forall_lemma('legendre_pou_ok', 'pou_ok e = true', 'legendre_elements', names_leg, 'pou'),
+            'Definition global_functionals : list gelem :=\n  [' + '; '.join(f'{n}_g' for n in names_glob) + '].\n',
+            forall_lemma('global_gdof_ok', 'gdof_ok e = true', 'global_functionals', names_glob, 'gdof'),
             forall_lemma('global_tables_ok', 'dtable_ok (snd e) = true', 'global_tables', names_glob, 'table_ok'),
             ]
     info['names'] = {'all': names_all, 'h1': names_dual, 'lowest': names_flux, 'global': names_glob, 'legendre': names_leg}
